@@ -12,7 +12,7 @@ def run(pid, tier, seed):
     np_, nv = 3, 2
     depth = 4 if q else 5
     consts = {"NParam": np_, "NValue": nv, "Depth": depth, "MaxSubst": 2, "Record": "TRUE"}
-    tdir = os.path.join(vlib.BUILD, "traces")
+    tdir = vlib.trace_dir()
     os.makedirs(tdir, exist_ok=True)
     tp = os.path.join(tdir, "%s-%s-%d.ndjson" % (pid, tier, seed))
     vlib.record_trace(exe, ["record", "--seed", seed, "--runs", 6 if q else 30, "--len", 250 if q else 600], tp)
